@@ -62,6 +62,8 @@ def extra(cases, verdicts):
         if ((c.get("impl") or {}).get("sp_final") or {}).get("relations"): feats["relations"] += 1
         if sp.get("objectives"): feats["explicit_objectives"] += 1
         if sp.get("clustering"): feats["vicinity_clustering"] += 1
+        if any(p.get("errors") for p in sp.get("profiles", [])): feats["dead_end_places_error_codes"] += 1
+        if c.get("k") == "merge_init": feats["merge_init_initial_solution_zero_generations"] += 1
         if (sp.get("clustering") or {}).get("filtering") is not None: feats["clustering_with_explicit_filtering"] += 1
     return {"solver_runs": sum(1 for c in cases if c.get("k") != "ophist"),
             "operator_histories_judged_by_partition": sum(1 for c in cases if c.get("k") == "ophist"), "tours_checked": tours, "populations": dict(pops), "hyper_heuristics": dict(hyp),
@@ -75,7 +77,9 @@ RULE = ("pragen problems (4-14 jobs; random mix of: multi-task jobs with tags, a
         "static-full/dynamic/local-heavy/ruin-recreate-only x termination generations/time/variation x Parallelism layouts 1x1..2x8); corpus: "
         "the crafted non-metric instance of known finding S7; every fifth problem states explicit objectives (work balance, compact tours, arrival time, fast service, distance/duration cost kinds, "
         "maximize tours), every twelfth has long tours (30-44 jobs on 1-2 vehicles); every sixth problem asks for vicinity clustering (both visiting policies, all serving "
-        "policies, with/without an explicit filtering list, relations derived in half of them) and is judged by the partition specification only. Non-trivial: >= 2 tours, or >= 1 tour and >= 1 unassigned job. "
+        "policies, with/without an explicit filtering list, relations derived in half of them) and is judged by the partition specification only; every eighth plain problem has a routing matrix with errorCodes (the places of one or two "
+        "single-task jobs are dead ends: no leg out of them is reachable); 24 deterministic merge_init cases (a feasible initial solution with a shared-resource "
+        "reload followed by another reload, zero generations: S62). Non-trivial: >= 2 tours, or >= 1 tour and >= 1 unassigned job. "
         "Distinct = SHA-256 of the canonical case input")
 
 
